@@ -2,7 +2,7 @@
     Only statements; each is closed by a lemma of Evm/SupplyProofs.v / Evm/JournalProofs.v. *)
 From Coq Require Import ZArith List.
 From stdpp Require Import gmap.
-From HV Require Import Evm.ExecModel Evm.JournalProofs Evm.SupplyProofs Evm.ConservationProofs Evm.Witnesses.
+From HV Require Import Evm.ExecModel Evm.JournalProofs Evm.SupplyProofs Evm.ConservationProofs Evm.LazyProofs Evm.Witnesses.
 Local Open Scope Z_scope.
 
 (** Exact accounting of the StateDB commit: for every dirty account the bank balance
@@ -28,23 +28,17 @@ Print Assumptions C02_commit_supply_delta_formula.
 
 (** Every pure EVM transaction — any call tree of value transfers between any of the
     accounts, storage writes, logs, reverts at any place with catching or propagating
-    callers, any amounts — leaves the total supply of the native coin unchanged.
-    (Stated from a cache in which the existing accounts are already loaded; the lazy
-    loading of the real StateDB is observationally the same for pure code, which the
-    correspondence run samples.  [closedb order] only says that the commit's address list
-    contains every call target.) *)
+    callers, any amounts — leaves the total supply of the native coin unchanged.  This
+    is about the real transaction function [run_tx] (empty cache, lazy loading, final
+    commit); [closedb order] only says that the commit's address list contains every
+    call target, [world_ok] that non-existing accounts hold no coins. *)
 Theorem C02_pure_transaction_conserves_supply :
   forall order W0 value c body,
     NoDup order -> world_ok W0 -> (forall a, a ∈ wexists W0 -> a ∈ order) -> 0%N ∈ order -> c ∈ order ->
     forallb pure body = true -> forallb (closedb order) body = true ->
-    supply (fst (run_tx_from order W0 (sat_cache W0 order) value (TopCall c body))) = supply W0.
-Proof. exact pure_tx_conserves_supply_from_clean. Qed.
+    supply (fst (run_tx order W0 value (TopCall c body))) = supply W0.
+Proof. exact pure_run_tx_conserves_supply. Qed.
 Print Assumptions C02_pure_transaction_conserves_supply.
-
-Theorem C02_run_tx_is_the_same_function_from_the_empty_cache :
-  forall order W0 value t, run_tx order W0 value t = run_tx_from order W0 sdb0 value t.
-Proof. exact run_tx_is_from_empty. Qed.
-Print Assumptions C02_run_tx_is_the_same_function_from_the_empty_cache.
 
 (** Pure EVM code cannot touch the bank or the supply before the final commit. *)
 Theorem C02_pure_code_never_touches_the_bank_partial :
